@@ -32,19 +32,19 @@ type BRet struct {
 
 // BStep is one method call on the register file.
 type BStep struct {
-	M     string `json:"m"`
-	Z     int    `json:"z"` // receiver register
-	X     int    `json:"x"` // first operand register
-	Y     int    `json:"y"` // second operand register
-	R     int    `json:"r"` // second receiver (QuoRem, DivMod)
-	Aux   int    `json:"aux"`
-	AuxV  IntV   `json:"auxv"` // int64 / uint64 argument
-	AuxS  []int  `json:"auxs"` // string argument
-	Post  []BReg `json:"post"`
-	MPost []IntV `json:"mpost"` // math/big mirror registers after the same call
-	Ret   BRet   `json:"ret"`
-	MRet  BRet   `json:"mret"`
-	Panic string `json:"panic"`
+	M      string `json:"m"`
+	Z      int    `json:"z"` // receiver register
+	X      int    `json:"x"` // first operand register
+	Y      int    `json:"y"` // second operand register
+	R      int    `json:"r"` // second receiver (QuoRem, DivMod)
+	Aux    int    `json:"aux"`
+	AuxV   IntV   `json:"auxv"` // int64 / uint64 argument
+	AuxS   []int  `json:"auxs"` // string argument
+	Post   []BReg `json:"post"`
+	MPost  []IntV `json:"mpost"` // math/big mirror registers after the same call
+	Ret    BRet   `json:"ret"`
+	MRet   BRet   `json:"mret"`
+	Panic  string `json:"panic"`
 	MPanic string `json:"mpanic"`
 }
 
@@ -83,11 +83,11 @@ func bigOfIntV(v IntV) *big.Int {
 	return b
 }
 
-func noRet() BRet         { return BRet{T: "n", V: IntV{C: []int{}}, S: []int{}} }
-func iRet(i int) BRet     { r := noRet(); r.T = "i"; r.I = i; return r }
-func bRet(b bool) BRet    { r := noRet(); r.T = "b"; r.B = b; return r }
+func noRet() BRet          { return BRet{T: "n", V: IntV{C: []int{}}, S: []int{}} }
+func iRet(i int) BRet      { r := noRet(); r.T = "i"; r.I = i; return r }
+func bRet(b bool) BRet     { r := noRet(); r.T = "b"; r.B = b; return r }
 func vRet(m *big.Int) BRet { r := noRet(); r.T = "v"; r.V = intV(m); return r }
-func sRet(s string) BRet  { r := noRet(); r.T = "s"; r.S = bytesOf(s); return r }
+func sRet(s string) BRet   { r := noRet(); r.T = "s"; r.S = bytesOf(s); return r }
 
 var (
 	bBinary  = []string{"Add", "Sub", "Mul", "Quo", "Rem", "Div", "Mod", "And", "Or", "Xor", "AndNot", "GCD"}
@@ -461,7 +461,7 @@ func (r *Rand) bigStep() BStep {
 	case "Text":
 		st.Aux = []int{2, 8, 10, 16, 36, 62}[r.Intn(6)]
 	case "SetInt64":
-		st.AuxV = intV(big.NewInt(int64(r.Uint64() >> uint(r.Intn(64))) * int64(1-2*r.Intn(2))))
+		st.AuxV = intV(big.NewInt(int64(r.Uint64()>>uint(r.Intn(64))) * int64(1-2*r.Intn(2))))
 		if r.Intn(4) == 0 {
 			st.AuxV = intV(big.NewInt([]int64{0, -1, 1, -9223372036854775808, 9223372036854775807}[r.Intn(5)]))
 		}
